@@ -982,11 +982,17 @@ where
             // So we handle TurnUndead here, otherwise the nodes will be
             // spamming each other with this message until enough time passes
             // that foca forgets the down member (`Config::remove_down_after`)
+            let was_undead = self.connection_state == ConnectionState::Undead;
             if message == Message::TurnUndead {
                 self.handle_self_update(Incarnation::default(), State::Down, &mut runtime)?;
             }
 
-            if self.config.notify_down_members {
+            // Two instances that consider each other down and can't renew
+            // their identities would answer every TurnUndead with another
+            // one, forever. If we already knew we were down when this
+            // TurnUndead arrived, there is nothing new to tell the sender.
+            let is_stale_turn_undead = message == Message::TurnUndead && was_undead;
+            if self.config.notify_down_members && !is_stale_turn_undead {
                 self.send_message(src, Message::TurnUndead, runtime)?;
             }
 
